@@ -1,0 +1,12 @@
+// SPDX-FileCopyrightText: 2026 The Pion community <https://pion.ly>
+// SPDX-License-Identifier: MIT
+
+//go:build verif
+
+package verifhooks
+
+import "github.com/pion/interceptor/internal/cc"
+
+// TwccExtensionAttributesKey re-exports the attributes key under which the negotiated
+// transport-cc extension id is handed to the feedback adapter.
+const TwccExtensionAttributesKey = cc.TwccExtensionAttributesKey
